@@ -19,21 +19,25 @@ def sh(cmd, **kw):
     return subprocess.run(cmd, shell=True, capture_output=True, text=True, env=env, **kw)
 
 
-def results(out):
-    """per test binary: (name, ok)"""
-    res = []
-    cur = None
-    for l in out.splitlines():
+def results(r):
+    """per test binary: (name, ok, passed, failed); names come from stderr ('Running ...'), results from stdout, both in order"""
+    names = []
+    for l in r.stderr.splitlines():
         m = re.search(r'Running (?:unittests )?(\S+)', l)
         if m:
-            cur = m.group(1)
+            names.append(m.group(1))
         m = re.search(r'Doc-tests (\S+)', l)
         if m:
-            cur = 'doc:' + m.group(1)
+            names.append('doc:' + m.group(1))
+    res = []
+    for l in r.stdout.splitlines():
         m = re.match(r'test result: (\w+)\. (\d+) passed; (\d+) failed', l)
-        if m and cur:
-            res.append((cur, m.group(1) == 'ok', int(m.group(2)), int(m.group(3))))
-    return res
+        if m:
+            res.append((m.group(1) == 'ok', int(m.group(2)), int(m.group(3))))
+    out = []
+    for i, (ok, p, f) in enumerate(res):
+        out.append((names[i] if i < len(names) else '?%d' % i, ok, p, f))
+    return out
 
 sh('git -C /repo worktree remove --force %s' % WT)
 r = sh('git -C /repo worktree add --detach %s HEAD' % WT)
@@ -41,14 +45,14 @@ assert r.returncode == 0, r.stderr
 try:
     shutil.copyfile(demo, os.path.join(WT, 'tests', 'demo_seed.rs'))
     r0 = sh('cargo test --offline --test demo_seed', cwd=WT)
-    base = results(r0.stdout + r0.stderr)
+    base = results(r0)
     log['demo_without_change'] = base
     demo_passes_without = bool(base) and all(ok for _, ok, _, _ in base) and r0.returncode == 0
     r = sh('git apply %s' % os.path.abspath(change), cwd=WT)
     log['apply'] = r.returncode
     applies = r.returncode == 0
     r1 = sh('cargo test --offline --no-fail-fast', cwd=WT)
-    allr = results(r1.stdout + r1.stderr)
+    allr = results(r1)
     log['all_with_change'] = allr
     compiled = 'error: could not compile' not in r1.stderr and 'error[E' not in r1.stderr
     existing = [x for x in allr if 'demo_seed' not in x[0]]
